@@ -669,6 +669,10 @@ package workflow
 //@        callres(getStageInputs, 1, 0)[n] != nil)
 //@   ensures [every-provided-input-is-compatible-with-its-schema] result == nil ==> (forall n string :: indom(stage.InputSchema, n) && callres(getStageInputs, 1, 0)[n] != nil ==> \
 //@        compatible(schema.Scope(internalDataModel), callres(getStageInputs, 1, 0)[n], stage.InputSchema[n]))
+// A value that may be absent at run time cannot stand for a required input. The code only looks at
+// whether something was written (known finding: `!soft-optional ...` is accepted for a required field).
+//@   ensures [an-optional-expression-does-not-satisfy-a-required-input] result == nil ==> (forall n string :: indom(stage.InputSchema, n) && stage.InputSchema[n].RequiredValue ==> \
+//@        !typeis(callres(getStageInputs, 1, 0)[n], *infer.OptionalExpression))
 //@   loop 1 invariant forall n string :: visited(n) && stage.InputSchema[n].RequiredValue ==> parsedInputs[n] != nil
 //@   loop 1 invariant forall n string :: visited(n) && parsedInputs[n] != nil ==> compatible(schema.Scope(internalDataModel), parsedInputs[n], stage.InputSchema[n])
 //
